@@ -98,8 +98,15 @@ func zz27Record(a zz27Attr) *Record {
 
 func zz27Attrs(n int) []zz27Attr {
 	as := make([]zz27Attr, n)
+	// From ALLV2FROM records on, every record carries a v2 signature (as every *valid* record does); below
+	// that, records with and without v2 signatures are mixed freely.
+	allV2 := n >= verifrt.Param("ALLV2FROM", 99)
 	for i := range as {
-		as[i].v2 = verifrt.NondetRange("v2", 0, 1) == 1 // a shape (nil / non-nil signature): forks
+		if allV2 {
+			as[i].v2 = true
+		} else {
+			as[i].v2 = verifrt.NondetRange("v2", 0, 1) == 1 // a shape (nil / non-nil signature): forks
+		}
 		as[i].seq = verifrt.NondetU64("seq")
 		as[i].sec = verifrt.NondetI64("sec")
 		as[i].nsec = verifrt.NondetI64("nsec")
